@@ -6,7 +6,7 @@ use syn::{
     Field, Generics, Result, Token, Type, WherePredicate,
 };
 
-use crate::syn_utils::GenericParamSet;
+use crate::syn_utils::{expand_self, GenericParamSet};
 
 #[derive(Clone, ToTokens, Debug)]
 pub enum Bound {
@@ -103,6 +103,16 @@ impl WhereClauseBuilder {
     pub fn push_bounds_for_field(&mut self, field: &Field) {
         if self.gps.contains_in_type(&field.ty) {
             self.types.push(field.ty.clone());
+        }
+    }
+
+    /// Replaces `Self` in everything collected so far (for impls whose `Self` is not the item's type, e.g. `impl .. for &X`).
+    pub fn expand_self(&mut self, to: &Type) {
+        for ty in &mut self.types {
+            *ty = expand_self(ty, to);
+        }
+        for p in &mut self.preds {
+            *p = expand_self(p, to);
         }
     }
 
